@@ -7,6 +7,7 @@ widths, borders × headers, any three-token character set — no hypothesis on w
 import RosedVerif.Model.InstAFacts
 import RosedVerif.Model.CompositeLemmas
 import RosedVerif.Model.BridgeComposite
+import RosedVerif.Model.TableShape
 namespace RosedVerif.Props
 open RosedVerif
 variable {α : Type} [DecidableEq α] (cx : Ctx α)
@@ -87,5 +88,41 @@ theorem C16_code_points {V : List (List Int)} (hV : VocabStable V = true)
       ∀ line ∈ ls, clusters cxA line.flatten = line ∧
         (gLen cxA line.flatten : Int) = max width (tableMinWidth data o.borders) :=
   insertTableOpts_bridge_C16 hV hsp toks ht o0 pos data hdata width o hL hc hcd hup
+
+/-- **the shape of the table** at cluster level, for ALL ragged data, widths, headers × borders and any character set: `MakeTableShape` (Model/TableShape.lean, 25 documented fields) — rows in input order at line `rowLine`; every row is its column segments, segment k exactly `colW k` long and starting at the same offset `colOffset k` in every row; a body cell is its left-stripped text (after one space with borders) padded with spaces, a header cell the UPPER-CASED text (centred with borders), a missing cell all spaces; the non-whitespace tokens of a segment are exactly its cell's; the header is followed by a rule (`h`^width without borders, the bar with borders when there is a body); with borders the first and last lines are the bar `c h^{w0} c h^{w1} c …` with corners exactly at the column boundaries, every row starts with `v` and has `v` after every segment; without borders and headers the character set is not used at all -/
+theorem C16_shape {α : Type} [DecidableEq α] (cx : Ctx α) (htriv : ∀ s, cx.ends s = List.range' 1 s.length)
+    (h3 : 3 ≤ cx.dCharset.length)
+    (data : List (List (List α)))
+    (width : Int)
+    (header border : Bool)
+    (charSet : List α)
+    (hd : data ≠ [])
+    (hk : tableColCount data ≠ 0) :
+    ∃ c v h, parseTableCharSet cx charSet = ⟨[c], [v], [h]⟩ ∧
+      makeTable cx data width header border charSet =
+        makeTable cx data width header border [c, v, h] ∧
+      MakeTableShape cx data width header border c v h :=
+  makeTable_shape_charSet cx htriv h3 data width header border charSet hd hk
+
+/-- … and the block InsertTableOpts inserts is that table (defaulted three-token character set), joined by the line separator with the trailing-separator policy -/
+theorem C16_shape_op {α : Type} [DecidableEq α] (cx : Ctx α) (htriv : ∀ s, cx.ends s = List.range' 1 s.length)
+    (h3 : cx.dCharset.length = 3)
+    (ed : Editor α)
+    (pos : Int)
+    (data : List (List (List α)))
+    (width : Int)
+    (o : Options α)
+    (hd : data ≠ [])
+    (hk : tableColCount data ≠ 0) :
+    ∃ c v h ls, (o.withDefaults cx).charset = [c, v, h] ∧
+      ls = makeTable cx data width o.headers o.borders [c, v, h] ∧
+      MakeTableShape cx data width o.headers o.borders c v h ∧
+      ed.insertTableOpts cx pos data width o =
+        ed.insert cx pos
+          (if (!(o.withDefaults cx).noTrailing) = true ∧
+              (!(Block.mk ls (o.withDefaults cx).lineSep false).join.isEmpty) = true then
+            (Block.mk ls (o.withDefaults cx).lineSep false).join ++ (o.withDefaults cx).lineSep
+          else (Block.mk ls (o.withDefaults cx).lineSep false).join) :=
+  insertTableOpts_tableShape cx htriv h3 ed pos data width o hd hk
 
 end RosedVerif.Props
